@@ -142,6 +142,24 @@ CLAIMS = {
              "disruption.",
         technique="callee allow-list over resolved MIR calls, must-follow pairing (grow => sort), who-may-use field scan, loop-structure path analysis",
         ref="DESIGN.md §3 C19"),
+    "C20": dict(
+        text="Decides the forbidden-effect and hash-order clauses of C20 over everything reachable (resolved calls, closures) from "
+             "the ~630 public entry points of the simulator/DST modules: R20.1 no wall clock, OS randomness, pid, env, thread, file or "
+             "socket call and no production implementation of an injected interface is reachable, except five frozen exceptions with "
+             "a reason and a checked side condition (e.g. should_flush not reachable, the command never constructed by a harness); "
+             "R20.2 every RNG is seed_from_u64(parameter); R20.3 rule H: no HashMap/HashSet iteration feeds an unsorted Vec, a shared "
+             "hasher, a first-element pick or a per-element RNG draw (8 frozen, reasoned exceptions); R20.4 the event queue is a "
+             "BinaryHeap ordered by virtual time. Does not compare traces across processes.",
+        technique="call-graph reachability over resolved callees with path witnesses, dataflow from unordered iterations to order-sensitive sinks (rule H), conditional exception table",
+        ref="DESIGN.md §3 C20"),
+    "C02": dict(
+        text="Decides the structural preconditions of C02: R02.1 a CommandExecutor is never behind Arc/Mutex/RwLock/RefCell-owned "
+             "wrappers, the actor's executor field is only projected inside the actor impl, each constructed actor is moved into one "
+             "tokio::spawn(run); R02.2 the actor run loops await only rx.recv(); R02.3 routing agreement (shared with C03); R02.4 a "
+             "pooled response slot is released only after its reply was awaited or the send failed, and no release-on-Drop owner holds "
+             "it across the await; R02.5 positional gathers use submission order. Does not decide the linearizability verdict.",
+        technique="type scan over ADT/local types, who-may-access field scan, await-site enumeration in coroutine MIR, dominance by await completion / failed-send edges",
+        ref="DESIGN.md §3 C02"),
 }
 
 PENDING_REASON = "check not built yet (build in progress; DESIGN.md §3 lists the planned structural clauses)"
